@@ -432,7 +432,7 @@ def pair_cases(probes, pouts):
         for wa in (3, 1, 2):
             a = step("auth", wa, cmd, **kw)
             n = calls.get((cmd, json.dumps({k: a[k] for k in ("obj", "tgt", "dir", "sent", "recv")}, sort_keys=True), "auth", wa), 0)
-            for k in range(1, min(n, 1 if cmd == TRAFFIC else 3) + 1):
+            for k in range(1, min(n, 1 if cmd == TRAFFIC else 3) + 1):   # same CommandId on both connections (harness)
                 for wb in (1, 2, 3):
                     if wb == wa:
                         continue
@@ -441,13 +441,19 @@ def pair_cases(probes, pouts):
                         t = copy.deepcopy(a)
                         t["park"], t["pair"] = k, step("auth", wb, cmd, **kwb)
                         out.append(dict(copy.deepcopy(WORLD), mode="case", aux=True, tag="pair", steps=[t]))
+                    if cmd == DOM_CREATE:
+                        # two racing creates for ONE sub-domain (the model has no sub-domain names: Go-side predicate only)
+                        t = copy.deepcopy(a)
+                        t["name"] = "race"
+                        t["park"], t["pair"] = k, step("auth", wb, cmd, name="race", **kw)
+                        out.append(dict(copy.deepcopy(WORLD), mode="case", aux=True, tag="pair", nomodel=True, steps=[t]))
     return out
 
 
 def fault_in_model(case, out):
     """faulted steps the model speaks about: the fault was not reached, or it hit the lookup read before the party decision;
     a fault after a GRANTED decision cuts the party's own mutation short (Go-side predicate only)"""
-    if any(so.get("timed_out") for so in out["steps"]):
+    if any(so.get("timed_out") for so in out["steps"]) or case.get("nomodel"):
         return False
     for s, so in zip(case["steps"], out["steps"]):
         k = s.get("fault", 0)
